@@ -5,8 +5,9 @@ Open Scope Z_scope.
 Definition b2z (b : bool) : Z := if b then 1 else 0.
 Definition ty_of (z : Z) : ty := nth (Z.to_nat z) all_ty TInt.
 Definition op_of (z : Z) : vop := nth (Z.to_nat z) all_ops Eq.
-(* (chain accepts, F&O defines) *)
-Definition run_vc (o a b : Z) : list Z := [b2z (vc_accepts (op_of o) (ty_of a) (ty_of b)); b2z (vc_spec (op_of o) (ty_of a) (ty_of b))].
+(* (the code yields a value, F&O defines the comparison); v = 1 for the 3.1 parser *)
+Definition run_vc (v o a b : Z) : list Z :=
+  [b2z (vc_defined (v =? 1) (op_of o) (ty_of a) (ty_of b)); b2z (vc_spec (v =? 1) (op_of o) (ty_of a) (ty_of b))].
 (* general comparison on integer sequences: op 0 = | 1 != | 2 < | 3 <= | 4 > | 5 >= *)
 Definition zcmp (o : Z) (x y : Z) : bool :=
   match o with 0 => x =? y | 1 => negb (x =? y) | 2 => x <? y | 3 => x <=? y | 4 => x >? y | _ => x >=? y end.
